@@ -147,7 +147,9 @@ RETCODE adfGetCacheEntry ( const struct bDirCacheBlock * const dirc,
     int ptr;
 
     ptr = *p;
-    if (ptr > LOGICAL_BLOCK_SIZE - 26) return RC_ERROR; /* minimum cache entry length */
+    /* records live in dirc->records[488], not in the whole 512-byte block */
+    const int recSize = (int) sizeof ( dirc->records );
+    if (ptr < 0 || ptr > recSize - 26) return RC_ERROR; /* minimum cache entry length */
 
 /*printf("p=%d\n",ptr);*/
 
@@ -174,13 +176,13 @@ RETCODE adfGetCacheEntry ( const struct bDirCacheBlock * const dirc,
          return;
 */
     if (cEntry->nLen < 1 || cEntry->nLen > MAXNAMELEN) return RC_ERROR;
-    if ((ptr + 24 + cEntry->nLen) > LOGICAL_BLOCK_SIZE) return RC_ERROR;
+    if ((ptr + 24 + cEntry->nLen) >= recSize) return RC_ERROR;
     memcpy(cEntry->name, dirc->records+ptr+24, cEntry->nLen);
     cEntry->name[(int)(cEntry->nLen)]='\0';
 
     cEntry->cLen = dirc->records[ptr+24+cEntry->nLen];
     if (cEntry->cLen > MAXCMMTLEN) return RC_ERROR;
-    if ((ptr+24+cEntry->nLen+1+cEntry->cLen) > LOGICAL_BLOCK_SIZE) return RC_ERROR;
+    if ((ptr+24+cEntry->nLen+1+cEntry->cLen) > recSize) return RC_ERROR;
     if (cEntry->cLen>0) {
 /*        cEntry->comm =(char*)malloc(sizeof(char)*(cEntry->cLen+1));
         if (!cEntry->comm) {
